@@ -28,7 +28,7 @@ meta = {
     "extra_demo_files": demos[1:],
     "demo_cmd": "GOFLAGS=-mod=mod GOPROXY=off GOSUMDB=off GOTOOLCHAIN=local go test -vet=off -count=1 -run TestDemo " + " ".join(pkgs),
     "breaks_property": prop,
-    "origin": "written by an independent sub-agent (wave p) given only the property text, one-line descriptions of the earlier changes to stay away from, the anchored file names and a scratch worktree",
+    "origin": "written by an independent sub-agent (wave q) given only the property text, one-line descriptions of the earlier changes to stay away from, the anchored file names and a scratch worktree",
 }
 json.dump(meta, open(out + "/meta.json", "w"), indent=1)
 print(out, demos)
